@@ -30,7 +30,11 @@ def exitOf (k : Kind) : Option Exc → Nat
   | some .kbd => 130
   | some .cancelled => 130
 
-def code (c : Cfg) (s : Script) : Nat := exitOf c.kind (raised s)
+/-- a database that cannot be opened is an unexpected error that ends the run before `setup()` -/
+def ended (c : Cfg) (s : Script) : Option Exc :=
+  if c.db && s.dbFails then some (.err .other) else raised s
+
+def code (c : Cfg) (s : Script) : Nat := exitOf c.kind (ended c s)
 
 /-- the failing hooks the user has to be told about -/
 def failing (c : Cfg) (s : Script) : List Hook :=
@@ -47,7 +51,7 @@ def violations (c : Cfg) (s : Script) (f : Final) : List String :=
         | some m => chk (m.exit == x) "meta-exit-code" ++ chk (decide (m.start ≤ m.stop)) "meta-times"
         | none => ["meta-missing"]
       else chk (f.metaFile == none) "meta-unexpected")
-  ++ (if c.db then
+  ++ (if c.db && !s.dbFails then
         match f.dbRow with
         | .done a b y => chk (y == x) "db-exit-code" ++ chk (decide (a ≤ b)) "db-times"
         | .running _ => ["db-unfinished"]
